@@ -307,6 +307,33 @@ class Engine:
         s.pc = self.st.pc
         return s
 
+    def _raise_is_free(self, call_node, excs) -> bool:
+        """an external's raise at the top level of the verified function, outside every try/with, when the contract admits that
+        exception unconditionally and states nothing about exceptional exits: the path would end at once with no obligation"""
+        c = self.c
+        if self.inline_depth or c.ensures_on_raise or c.frame_on_raise or c.raise_preserves_state or self.spec_mode:
+            return False
+        g = self.__dict__.get("_guarded_nodes")
+        if g is None:
+            g = set()
+            for t in ast.walk(self.x.node):
+                if isinstance(t, (ast.Try, ast.With, ast.AsyncWith)):
+                    g.update(id(k) for k in ast.walk(t))
+            self._guarded_nodes = g
+        if id(call_node) in g:
+            return False
+        for e in excs:
+            ok = False
+            for exc, cond in list(c.raises.items()) + list(c.may_raise.items()):
+                if self.is_subclass(e, exc):
+                    if cond:
+                        return False
+                    ok = True
+            if not ok:
+                return False
+        self.free_raises = self.__dict__.get("free_raises", 0) + 1
+        return True
+
     def at_raise_exit(self, e: PyRaise):
         c = self.c
         self.path_label.append(f"raise-{e.exc}")
@@ -612,6 +639,8 @@ class Engine:
             if self.spec_mode:
                 raise OutOfReach("assignment in clause")
             self.st.env[t.id] = v
+            if t.id in getattr(self.c, "case_split", {}):
+                self.st.pc.append(self.clause_bool(self.c.case_split[t.id], self.st, self.entry, {}))
         elif isinstance(t, ast.Attribute):
             obj = self.ev(t.value)
             if obj.k == "opt" and obj.t[1].k == "obj":
@@ -677,6 +706,8 @@ class Engine:
         self.if_ord += 1
         lab = f"if{s.lineno - self.x.lineno}"
         c = self.truth(self.ev(s.test))
+        if not s.orelse and self._only_dropped(s.body):
+            return          # `if cond: log(...)`: both outcomes continue in the same state, one path
         if self.branch(c, lab):
             self.refine(s.test, True)
             self.exec_block(s.body)
@@ -778,7 +809,10 @@ class Engine:
         h = s.handlers[0]
         if h.type is not None and self.dotted(h.type) not in ("Exception", "BaseException"):
             return False
-        for st_ in h.body:
+        return self._only_dropped(h.body)
+
+    def _only_dropped(self, body) -> bool:
+        for st_ in body:
             if isinstance(st_, ast.Pass):
                 continue
             if isinstance(st_, ast.Expr) and isinstance(st_.value, ast.Call):
@@ -1258,6 +1292,15 @@ class Engine:
                     return self.pyval(self.c.consts[d])
                 if d in self.reg.consts:
                     return self.pyval(self.reg.consts[d])
+                if root in self.c.consts:
+                    # attribute chain on a live constant (module, class, enum member): read natively
+                    cur_ = self.c.consts[root]
+                    try:
+                        for p_ in d.split(".")[1:]:
+                            cur_ = getattr(cur_, p_)
+                        return self.pyval(cur_)
+                    except AttributeError:
+                        pass
         obj = self.ev(n.value)
         if obj.k == "opt" and obj.t[1].k == "obj":
             if self.spec_mode:
@@ -2041,6 +2084,23 @@ class Engine:
             return mk_int(self.st.ghost.get(g, z3.IntVal(0)))
         if nm == "ncalls":
             return self.pyval(len(self.st.calls.get(n.args[0].value, [])))
+        if nm == "call_index":
+            # index of the first recorded call satisfying the predicate, -1 if none (concrete along a path)
+            lam = n.args[1]
+            names = [a.arg for a in lam.args.args]
+            for i_, rec in enumerate(self.st.calls.get(n.args[0].value, [])):
+                vals = list(rec.values())
+                envl = {nm_: (rec[nm_] if nm_ in rec else vals[j_]) for j_, nm_ in enumerate(names) if nm_ in rec or j_ < len(vals)}
+                self.clause_env_stack.append(envl)
+                try:
+                    t_ = z3.simplify(self.truth(self.ev(lam.body)))
+                finally:
+                    self.clause_env_stack.pop()
+                if z3.is_true(t_):
+                    return self.pyval(i_)
+                if not z3.is_false(t_):
+                    raise OutOfReach("call_index: predicate not decided on a recorded call")
+            return self.pyval(-1)
         if nm in ("stored_value", "stored_key"):
             recs = self.st.calls.get(n.args[0].value, [])
             if not recs:
@@ -2287,6 +2347,8 @@ class Engine:
         if v.k == "obj":
             sup = self.reg.class_supers(v.cls)
             return mk_bool(cls in sup or cls.split(".")[-1] in sup)
+        if v.k == "py":
+            return mk_bool(cls.split(".")[-1] in [k_.__name__ for k_ in type(v.t).__mro__])
         if v.k == "opaque":
             # dynamic type of an unmodelled value: an uninterpreted predicate per class name
             fn_ = z3.Function("isinstance_" + cls.replace(".", "_"), opaque_sort(v.cls), z3.BoolSort())
@@ -2715,6 +2777,11 @@ class Engine:
         args = []
         for a in n.args:
             if isinstance(a, ast.Starred):
+                try:
+                    self.ev(a.value)        # evaluating the unpacked expression may itself call, raise or fork
+                except OutOfReach:
+                    if not summ.get("ignore_args"):
+                        raise
                 args.append(NONE)
                 continue
             try:
@@ -2747,6 +2814,8 @@ class Engine:
         mr = summ.get("may_raise")
         if mr and n is self._merge_raise_stmt:
             mr = None       # swallowed by the enclosing effect-free catch-all: same continuation either way
+        if mr and self._raise_is_free(n, [mr] if isinstance(mr, str) else list(mr)):
+            mr = None       # that raise ends the function with an exception its contract admits unconditionally: no obligation
         if mr:
             excs = [mr] if isinstance(mr, str) else list(mr)
             w = self.choose(lab, ["ok"] + excs)
@@ -2763,7 +2832,11 @@ class Engine:
         for g, inc in summ.get("ghost", {}).items():
             self.st.ghost[g] = self.st.ghost.get(g, z3.IntVal(0)) + inc
         self._ext_havoc(summ, args)
-        res = self.ext_result(summ, d)
+        if summ.get("native_call") is not None and all(a_.k == "py" for a_ in args) and not kwvals:
+            # pure constructor over live constants only: run it
+            res = self.pyval(summ["native_call"](*[a_.t for a_ in args]))
+        else:
+            res = self.ext_result(summ, d, args)
         if summ.get("record_as") and self.st.calls.get(summ["record_as"]):
             self.st.calls[summ["record_as"]][-1]["result"] = res
         post = summ.get("post")
@@ -2789,8 +2862,10 @@ class Engine:
             elif isinstance(node, ast.Name) and node.id in self.st.env:
                 self.st.env[node.id] = self._havoc_value(self.st.env[node.id], node.id)
 
-    def ext_result(self, summ, d) -> V:
+    def ext_result(self, summ, d, args=None) -> V:
         r = summ.get("returns")
+        if summ.get("returns_fn") is not None and args is not None:
+            r = summ["returns_fn"](args)
         if not r:
             return NONE
         facts: List[Any] = []
